@@ -494,18 +494,32 @@ func (w *c16World) oracleRound(before, after []c16JobView) {
 		wasLive[j.id] = c16Live(j)
 		wasWaitingPending[j.id] = j.waiting && j.phase <= 1
 	}
-	// jobs admitted in this round that the code exempts from every limit: pod gone, or pod carries the evict annotation
+	// jobs admitted in this round for a pod that carries the evict annotation: the documented exemption of the filter
+	// definition (retryablePodFilter = HaveEvictAnnotation || limits)
 	bypass := func(j c16JobView) bool {
 		if wasLive[j.id] {
 			return false
 		}
 		p, ok := w.pods[j.pod]
-		return !ok || p.ann
+		return ok && p.ann
+	}
+	// jobs admitted in this round whose pod does not exist: the code consults no limit for them (open finding)
+	missing := func(j c16JobView) bool {
+		if wasLive[j.id] {
+			return false
+		}
+		_, ok := w.pods[j.pod]
+		return !ok
 	}
 	un := w.apiUnavailable() // pods do not change during a round
 	B, A, X := w.counts(before, c16Live, nil, un), w.counts(after, c16Live, nil, un), w.counts(after, c16Live, bypass, un)
+	M := w.counts(after, c16Live, missing, un) // only the global and per-namespace counts can contain such jobs
 	if w.mg > 0 && !w.skipped(5) && A.global > c16Max(w.mg, B.global)+X.global {
-		h.Fail("C16:arb-global-exceeded", "live jobs %d > max(limit %d, before %d) + exempt %d", A.global, w.mg, B.global, X.global)
+		if A.global <= c16Max(w.mg, B.global)+X.global+M.global {
+			h.Fail("C16:arb-missing-pod-bypasses-limits", "live jobs %d > max(limit %d, before %d) + exempt %d: %d job(s) admitted whose pod does not exist", A.global, w.mg, B.global, X.global, M.global)
+		} else {
+			h.Fail("C16:arb-global-exceeded", "live jobs %d > max(limit %d, before %d) + exempt %d (+ %d without pod)", A.global, w.mg, B.global, X.global, M.global)
+		}
 	}
 	if w.mn > 0 && !w.skipped(3) {
 		for n, c := range A.node {
@@ -517,7 +531,11 @@ func (w *c16World) oracleRound(before, after []c16JobView) {
 	if w.ms > 0 && !w.skipped(4) {
 		for n, c := range A.ns {
 			if c > c16Max(w.ms, B.ns[n])+X.ns[n] {
-				h.Fail("C16:arb-namespace-exceeded", "namespace %d: %d live jobs > max(limit %d, before %d) + exempt %d", n, c, w.ms, B.ns[n], X.ns[n])
+				if c <= c16Max(w.ms, B.ns[n])+X.ns[n]+M.ns[n] {
+					h.Fail("C16:arb-missing-pod-bypasses-limits", "namespace %d: %d live jobs > max(limit %d, before %d) + exempt %d: %d job(s) admitted whose pod does not exist", n, c, w.ms, B.ns[n], X.ns[n], M.ns[n])
+				} else {
+					h.Fail("C16:arb-namespace-exceeded", "namespace %d: %d live jobs > max(limit %d, before %d) + exempt %d (+ %d without pod)", n, c, w.ms, B.ns[n], X.ns[n], M.ns[n])
+				}
 			}
 		}
 	}
